@@ -287,6 +287,13 @@ func (vr *variableResolver) resolve(ctx *ExecutionContext) (*Value, error) {
 			isFunc := false
 			if part.typ == varTypeIdent {
 				funcValue := current.MethodByName(part.s)
+				if funcValue.IsValid() && current.Kind() == reflect.Ptr && current.IsNil() {
+					if _, valueRecv := current.Type().Elem().MethodByName(part.s); valueRecv {
+						// A method with a value receiver can't be called through
+						// a nil pointer; the value is not valid (anymore)
+						return AsValue(nil), nil
+					}
+				}
 				if funcValue.IsValid() {
 					current = funcValue
 					isFunc = true
